@@ -511,3 +511,21 @@ def list_elements(t):
       out.append(T('elem', x))
   rec(t)
   return out
+
+
+def when_empty(c):
+  """truth value of the test `c` when no parameter is preconditioned (None: not an emptiness test)"""
+  c = strip_casts(c)
+  if c.op == 'un' and c.args[0] == 'not':
+    v = when_empty(c.args[1])
+    return None if v is None else not v
+  if c.op in ('list', 'mut', 'phi', 'loop') or (c.op == 'bin' and c.args[0] == '+' and any(y.op in ('list', 'mut') for y in c.args[1:])):
+    return False                      # truthiness of the (empty) list / of a zero count
+  if c.op == 'cmp' and len(c.args) == 3:
+    o, a_, b_ = c.args
+    if is_const(a_, 0):
+      a_, b_ = b_, a_
+      o = {'<': '>', '>': '<', '<=': '>=', '>=': '<='}.get(o, o)
+    if is_const(b_, 0) and not is_const(a_):
+      return {'==': True, '!=': False, '>': False, '<=': True, '>=': True, '<': False}.get(o)
+  return None
